@@ -209,6 +209,12 @@ def gen_case(rng: random.Random, intensify: bool) -> dict:
             "feats": table, "malformed": malformed}
     if via != "direct" and ndim is not None and rng.random() < 0.4:
         case["late_ndim"] = True
+    if via == "csv-builder" and mode == "node" and rng.random() < 0.6:
+        # through the public `prepare(table)`; half of these on a builder that has been prepared
+        # for ANOTHER table before (the map is inferred afresh for each source)
+        case["via_prepare"] = True
+        if rng.random() < 0.5:
+            case["prev_cols"] = gen_columns(rng, build_pool(rng, feats), intensify)
     return case
 
 
@@ -278,7 +284,16 @@ def run_real(case: dict) -> tuple[str, Any, list]:
                         case["ndim"], display_name=False)
                 # late_ndim: what `prepare(source, segmentation=…)` does — the dimensionality becomes
                 # known after the builder (and its default feature table) was created
-                if case["mode"] == "node":
+                if case["mode"] == "node" and case.get("via_prepare"):
+                    import pandas as pd
+                    if case.get("prev_cols") is not None:
+                        try:
+                            b.prepare(pd.DataFrame(columns=list(case["prev_cols"])))
+                        except Exception:  # noqa: BLE001  (the earlier table may be one it refuses)
+                            pass
+                    b.prepare(pd.DataFrame(columns=cols))
+                    out = b.node_name_map
+                elif case["mode"] == "node":
                     b.importable_node_props = cols
                     out = b.infer_node_name_map()
                 else:
